@@ -1,5 +1,6 @@
 (** C34: proofs about the regenerated model [Gen.v]. *)
-From Coq Require Import ZArith Bool Lia ZifyBool.
+From Coq Require Import ZArith Bool Lia ZifyBool List.
+Import ListNotations.
 From C34 Require Import Gen Model.
 Open Scope Z_scope.
 Ltac Zify.zify_post_hook ::= Z.to_euclidean_division_equations.
@@ -84,3 +85,32 @@ Example ex_antipodes : sn_lt 8 200 72 = false /\ sn_gt 8 200 72 = false /\ sn_eq
 Proof. vm_compute. auto. Qed.
 Example ex_wrap : sn_add 8 250 10 = Some 4 /\ sn_gt 8 4 250 = true.
 Proof. vm_compute. auto. Qed.
+
+(** ---- chains of additions: the left operand is the previous sum ---- *)
+Definition chain_step (bits s n : Z) : Z :=
+  match sn_add bits s n with Some r => r | None => s end.
+Definition chain_val (bits s : Z) (ns : list Z) : Z := fold_left (chain_step bits) ns s.
+
+Lemma chain_sum bits ns : forall s,
+  1 <= bits -> valid bits s ->
+  Forall (fun n => 0 <= n <= 2 ^ (bits - 1) - 1) ns ->
+  chain_val bits s ns = (s + fold_right Z.add 0 ns) mod 2 ^ bits /\ valid bits (chain_val bits s ns).
+Proof.
+  induction ns as [|n r IH]; intros s Hb Hs Hall; unfold chain_val in *; cbn [fold_left fold_right].
+  - split; [|exact Hs]. rewrite Z.add_0_r. unfold valid in Hs. symmetry; apply Z.mod_small; exact Hs.
+  - inversion Hall as [|? ? Hn Hr]; subst.
+    destruct (add_ok bits s n Hb Hs Hn) as [Ha Hv].
+    assert (Hstep : chain_step bits s n = rfc_add bits s n) by (unfold chain_step; rewrite Ha; reflexivity).
+    rewrite Hstep.
+    destruct (IH (rfc_add bits s n) Hb Hv Hr) as [E V]. split; [|exact V].
+    rewrite E. unfold rfc_add.
+    rewrite Zplus_mod_idemp_l. f_equal. ring.
+Qed.
+
+Lemma chain_refused_keeps bits s n ns :
+  2 ^ (bits - 1) - 1 < n -> chain_val bits s (n :: ns) = chain_val bits s ns.
+Proof.
+  intros H. unfold chain_val; cbn [fold_left].
+  assert (Hstep : chain_step bits s n = s) by (unfold chain_step; rewrite (add_refused bits s n H); reflexivity).
+  rewrite Hstep. reflexivity.
+Qed.
